@@ -243,6 +243,40 @@ fn c15_response_ok_rt(mode: Mode) {
     }
 }
 
+/// C01: ids are never defaulted.  A Response frame without `request_id` (self-describing codec)
+/// must be a decode error — were it to decode, it would complete whichever call holds the default
+/// id although the peer sent nothing for that call.
+fn c01_response_requires_id() {
+    let id = any_u64();
+    let body = any_u32();
+    let m: Response<u32> = Response { request_id: id, message: Ok(body) };
+    let mut w = Wire::new(Mode::Json);
+    w.skip_field = "request_id";
+    assert!(to_wire(&mut w, &m).is_ok());
+    std::mem::forget(m);
+    let r = from_wire::<Response<u32>>(&mut w);
+    let rejected = r.is_err();
+    std::mem::forget(r);
+    assert!(rejected, "a response without a request id decoded");
+    witness!(id == 0, "the omitted id was the default id");
+    witness!(id != 0, "the omitted id was not the default id");
+}
+/// Same for a Cancel without `request_id` (C03/C04 side; cheap to keep next to it).
+fn c01_cancel_requires_id() {
+    let id = any_u64();
+    let m: ClientMessage<u32> = ClientMessage::Cancel { trace_context: trace::Context::default(), request_id: id };
+    let mut w = Wire::new(Mode::Json);
+    w.inner_structs_as_arrays = true;
+    w.skip_field = "request_id";
+    assert!(to_wire(&mut w, &m).is_ok());
+    let r = from_wire::<ClientMessage<u32>>(&mut w);
+    let rejected = r.is_err();
+    std::mem::forget(r);
+    assert!(rejected, "a cancellation without a request id decoded");
+    witness!(id == 0, "default id omitted");
+    witness!(id != 0, "non-default id omitted");
+}
+
 pub mod kinds;
 pub use kinds::{KINDS, PORTABLE};
 /// Error kinds: the 18 portable kinds round-trip exactly, every other kind degrades to Other.
@@ -417,6 +451,8 @@ harnesses! {
     fn c15_sequence2_varint() [unwind 18] { c15_sequence2(Mode::Varint) }
     fn c15_sequence3_varint() [unwind 18] { c15_sequence3(Mode::Varint, false) }
 
+    fn c01_response_requires_id_json() [unwind 12] { c01_response_requires_id() }
+    fn c01_cancel_requires_id_json() [unwind 18] { c01_cancel_requires_id() }
     fn c16_decode_any_deadline_varint() [unwind 18] { c16_decode_any_deadline(Mode::Varint) }
     fn c16_decode_any_deadline_json() [unwind 18] { c16_decode_any_deadline(Mode::Json) }
 }
